@@ -1019,7 +1019,9 @@ def main():
     ap.add_argument('--race', action='store_true')
     ap.add_argument('--retype', action='append', default=[], help='NAME=LLVMTYPE: give a byte-array storage struct the type of its content')
     a = ap.parse_args()
-    m = parse_module(open(a.ll).read())
+    txt = open(a.ll).read()
+    txt = re.sub(r',?\s*comdat\(\$[^)]*\)', '', txt)      # `comdat($name)` (guard variables of templated statics): linkage detail, no semantics
+    m = parse_module(txt)
     models = set()
     for mf in [x for x in a.models.split(',') if x]:
         for mm in re.finditer(r'^\s*(?:[A-Za-z_][\w\s\*]*?)\b([A-Za-z_]\w*)\s*\([^;{]*\)\s*\{', open(mf).read(), re.M):
